@@ -460,14 +460,22 @@ def drive_fifo(prog: dict, faults: dict | None = None, observe: dict | None = No
             ca = faults["crash_at"]
             run.crash_at = set(ca) if isinstance(ca, (list, tuple)) else {ca}
         status = None
-        for _round in range(3):
-            crashed = run.run_protected(lambda: run.drain(max_steps))
+        state = {"recover": False}
+
+        def body():
+            if state["recover"]:          # restart: locks lapse, recovery sweep(s) - a later kill may fall in here
+                _expire_all(run)
+                for _ in range(sweeps):
+                    run.sweep()
+                state["recover"] = False
+            run.drain(max_steps)
+
+        for _round in range(5):
+            crashed = run.run_protected(body)
             if not crashed:
                 status = "quiescent" if not run.rows() else "stuck"
                 break
-            _expire_all(run)
-            for _ in range(sweeps):
-                run.sweep()
+            state["recover"] = True
         run.quiescent()
         _observe(run, observe)
         meta = {"kind": "fifo", "faults": faults, "drain": status, "observe": observe or {}, "sweeps": sweeps}
